@@ -160,6 +160,7 @@ Proof. exact SoundLemmas.unop_sound. Qed.
 Theorem compound_assign_sound : forall aop bop L t T2 v cur,
   assign_base aop = Some bop ->
   wf_ty t = true -> wf_ty T2 = true ->
+  is_multi L = false ->
   mut_element_type_spec L = Some t ->
   can_be_used aop L T2 = Ok true ->
   has_type v T2 = true -> has_type cur t = true ->
@@ -170,11 +171,17 @@ Theorem compound_assign_sound : forall aop bop L t T2 v cur,
 Proof. exact (SoundLemmas.compound_assign_sound powf). Qed.
 
 Theorem assign_sound : forall L t T2 v,
+  is_multi L = false ->
   mut_element_type_spec L = Some t -> can_be_used Assign L T2 = Ok true ->
   has_type v T2 = true -> has_type v t = true.
 Proof. exact SoundLemmas.assign_sound. Qed.
 
 End C01.
+
+(* a union target `mut A | mut B` is checked member by member (cells are invariant) *)
+Theorem assign_to_union_checks_every_member : forall ms T cbu rtf m,
+  assign_ok (TMulti ms) T cbu rtf = Ok true -> In m ms -> assign_ok_single m T cbu rtf = Ok true.
+Proof. exact SoundLemmas.assign_ok_multi_member. Qed.
 
 (* ---------- A3: indexing ---------- *)
 Theorem at_no_panic : forall T v i,
@@ -242,7 +249,8 @@ Theorem index_guard_repaired : forall T,
 Proof. exact SoundLemmas.index_guard_repaired. Qed.
 Theorem index_guard_never_refuted : can_be_indexed TNever = true /\ index_result TNever = None.
 Proof. exact SoundLemmas.index_guard_never_refuted. Qed.
-Theorem at_rt_never_panics : bin_rt At TNever TInt = Panic.
+Theorem at_rt_never_panics :
+  lift_opt_unwrap (index_result TNever) = Panic /\ bin_rt At TNever TInt = Ok TNever.
 Proof. exact SoundLemmas.at_rt_never_panics. Qed.
 
 (* element type behind `matches T [any]` ($ on arrays, +) *)
@@ -252,7 +260,8 @@ Proof. exact SoundLemmas.element_guard. Qed.
 Theorem element_guard_never_refuted :
   matches TNever (TArr TAny) = true /\ element_type TNever = None.
 Proof. exact SoundLemmas.element_guard_never_refuted. Qed.
-Theorem iter_rt_never_panics : un_rt UIter TNever = Panic.
+Theorem iter_rt_never_panics :
+  lift_opt_unwrap (element_type TNever) = Panic /\ un_rt UIter TNever = Ok (TFun [] (TTup [TBool; TNever])).
 Proof. exact SoundLemmas.iter_rt_never_panics. Qed.
 Theorem element_type_upper : forall T e,
   wf_ty T = true -> element_type T = Some e -> matches T (TArr e) = true.
@@ -273,9 +282,9 @@ Proof. exact SoundLemmas.mut_element_type_union_none. Qed.
    repaired Rt.un_rt / Check.assign_ok ask [mut_element_type_spec] instead *)
 Theorem deref_union_rt_panics :
   is_mut (TMulti [TMut TInt; TMut TFloat]) = true /\
-  lift_opt (mut_element_type (TMulti [TMut TInt; TMut TFloat])) = Panic /\
+  lift_opt_unwrap (mut_element_type (TMulti [TMut TInt; TMut TFloat])) = Panic /\
   un_rt UIndirection (TMulti [TMut TInt; TMut TFloat]) = Ok (TMulti [TInt; TFloat]) /\
-  can_be_used Assign (TMulti [TMut TInt; TMut TFloat]) TInt = Ok true.
+  can_be_used Assign (TMulti [TMut TInt; TMut TFloat]) TInt = Ok false.
 Proof. exact SoundLemmas.deref_union_rt_panics. Qed.
 (* the intended definition is guarded correctly *)
 Theorem mut_guard_spec : forall T,
@@ -324,7 +333,8 @@ Proof. exact SoundLemmas.product_guard. Qed.
 Theorem iter_guard_never_refuted :
   matches TNever ITERATOR_TYPE = true /\ matches TNever ACC_SUM = true /\
   iter_element TNever = None /\
-  un_rt UCollect TNever = Panic /\ un_rt USum TNever = Panic.
+  lift_opt_unwrap (iter_element TNever) = Panic /\
+  un_rt UCollect TNever = Ok (TArr TNever) /\ un_rt USum TNever = Ok TNever.
 Proof. exact SoundLemmas.iter_guard_never_refuted. Qed.
 (* `!` need not be the whole type: `() -> !` is an iterator for matches, and the
    repaired guard `yt != ! && matches(...)` still lets it through: NOT repaired *)
@@ -332,7 +342,8 @@ Theorem iter_guard_fun_never_refuted :
   wf_ty (TFun [] TNever) = true /\ ty_eqb (TFun [] TNever) TNever = false /\
   matches (TFun [] TNever) ITERATOR_TYPE = true /\ matches (TFun [] TNever) ACC_SUM = true /\
   iter_element (TFun [] TNever) = None /\
-  un_rt UCollect (TFun [] TNever) = Panic /\ un_rt USum (TFun [] TNever) = Panic.
+  lift_opt_unwrap (iter_element (TFun [] TNever)) = Panic /\
+  un_rt UCollect (TFun [] TNever) = Ok (TArr TNever) /\ un_rt USum (TFun [] TNever) = Ok TNever.
 Proof. exact SoundLemmas.iter_guard_fun_never_refuted. Qed.
 Theorem iter_guard_tuple_never_refuted :
   matches (TFun [] (TTup [TNever; TInt])) ITERATOR_TYPE = true /\
